@@ -93,14 +93,13 @@ def get_use_tree(
             old_len = len(use_dict_mod.only_list)
             old_names = set(use_dict_mod.rename_map)
             if old_len > 0 and merged_use_list:
-                only_len = old_len
                 for only_name in merged_use_list:
                     use_dict_mod.only_list.add(only_name)
-                    if len(use_dict_mod.only_list) == only_len:
-                        continue
-                    only_len = len(use_dict_mod.only_list)
+                    # The name may be listed already without its rename: a path
+                    # through a module that uses this one as a whole passes the
+                    # ONLY list down unchanged
                     new_rename = merged_rename.get(only_name)
-                    if new_rename is None:
+                    if new_rename is None or only_name in use_dict_mod.rename_map:
                         continue
                     use_dict_mod.rename_map[only_name] = new_rename
                     use_dict[use_stmnt.mod_name] = use_dict_mod
